@@ -120,11 +120,56 @@ def faults_C10(ctx, proof_ok):
     else:
         ctx.note("finding-not-reproduced: C10-read-goroutine witness (open; read 2; mkdir) no longer hangs: %s" % [r["out"] for r in wres])
     ctx.oblige("fault enumeration: every faulted call returned, left the drive free and a following call completed (known findings apart)", bad == 0, "%d failures" % bad)
+    race_stress_C10(ctx)
     ctx.coverage.update(evaluations=len(plans), fault_points=len(plans), faults_fired=fired, by_seam=dict(by_seam), verdicts={str(k): v for k, v in outcomes.items()},
                         base_histories=len(bases), distinct_nontrivial=fired,
                         rule="fault points = (base history, call, seam, k) for every k-th event the fault-free run of that call reaches at the seams %s; non-trivial = the injected fault actually fired" % ", ".join(SEAMS),
                         samples=[dict(history=[c["op"] for c in bases[plans[i][0]]["calls"][:plans[i][1] + 1]], seam=plans[i][2], k=plans[i][3],
                                       outcomes=[r["out"] for r in runs[i]["res"]]) for i in range(0, len(plans), max(1, len(plans) // 4))][:4])
+
+
+RACE_HISTORIES = [
+    # a Seek/Read on a read-capable handle starts the streaming goroutine; the calls that follow on the SAME handle (write, sync, close)
+    # use the drive through the write operations while that goroutine may not have finished: one client, no overlap of calls
+    [{"op": "createfile", "name": "/f", "blob": 0}, {"op": "open", "h": "a", "name": "/f", "flags": 2, "perm": 0o644}, {"op": "seek", "h": "a", "whence": 0, "off": 0},
+     {"op": "write", "h": "a", "blob": 1}, {"op": "sync", "h": "a"}, {"op": "write", "h": "a", "blob": 2}, {"op": "sync", "h": "a"}, {"op": "close", "h": "a"}],
+    [{"op": "createfile", "name": "/f", "blob": 1}, {"op": "open", "h": "a", "name": "/f", "flags": 2, "perm": 0o644}, {"op": "read", "h": "a", "n": 4},
+     {"op": "write", "h": "a", "blob": 2}, {"op": "close", "h": "a"}, {"op": "mkdir", "name": "/d", "perm": 0o755}],
+    [{"op": "createfile", "name": "/f", "blob": 0}, {"op": "open", "h": "a", "name": "/f", "flags": 0, "perm": 0}, {"op": "seek", "h": "a", "whence": 0, "off": 0}, {"op": "close", "h": "a"},
+     {"op": "mkdir", "name": "/d", "perm": 0o755}, {"op": "createfile", "name": "/d/g", "blob": 1}],
+]
+
+
+def race_stress_C10(ctx):
+    """Single-client histories whose calls race with the handle's own streaming goroutine, each repeated under load (all cores busy):
+    a run that dies (Go runtime 'fatal error', panic) or hangs is a violation of 'every call returns'. A supporting search: the
+    proof obligation is C10_drive_manager_get / _close."""
+    cached, p = streams.cache_get(ctx, "racestress")
+    reps = 48 if ctx.tier == "quick" else 400
+    if cached is None:
+        hs = []
+        for k, body in enumerate(RACE_HISTORIES):
+            for cache in ("file", "memory"):
+                hs.append({"config": {"rs": 20, "cache": cache}, "blobs": [{"seed": 1, "len": 0}, {"seed": 2, "len": 4}, {"seed": 3, "len": 700}], "obs": [],
+                           "calls": [{"op": "initialize"}] + [dict(c, tmo=20000) for c in body]})
+        hs = streams.replay_override(ctx, "history", hs)
+        runs = hist.run_many([h for h in hs for _ in range(reps)], workers=32, timeout=180)
+        cached = dict(hs=hs, runs=[dict(rc=rc, err=e[-1200:], outs=[x["out"] for x in r]) for (r, rc, e) in runs])
+        streams.cache_put(p, cached)
+    hs, runs = cached["hs"], cached["runs"]
+    bad = collections.Counter()
+    for i, d in enumerate(runs):
+        h = hs[i // reps] if hs else None
+        died = d["rc"] not in (0,) or "HANG" in d["outs"] or len(d["outs"]) < len(h["calls"])
+        if died:
+            key = i // reps
+            bad[key] += 1
+            if bad[key] == 1 and len(bad) <= 3:
+                ctx.violation("crash-or-hang", "a single-client handle history died or hung in %s (1 of %d repetitions under load so far)" % ("a Go runtime fatal error" if "fatal error" in d["err"] else "exit code %s" % d["rc"], reps),
+                              dict(history=h, repeat=reps, how="run the history repeatedly with all cores busy (stfsdrv run < history.json): the failure is a race with the handle's streaming goroutine", stderr=d["err"][-600:], outcomes=d["outs"]))
+    ctx.oblige("race stress: %d single-client histories that leave the handle's streaming goroutine behind, %d repetitions each under load: every run completed" % (len(hs), reps),
+               not bad, "%s" % dict(bad))
+    ctx.coverage.update(race_stress_runs=len(runs))
 
 
 def readonly_C15(ctx, proof_ok):
